@@ -5,6 +5,7 @@ use rustfmt_nightly::verif_hooks as hooks;
 use serde_json::{json, Value};
 use std::io::{self, BufRead, Write};
 
+mod c07;
 mod c11;
 mod c12;
 mod c17;
@@ -18,6 +19,7 @@ fn main() {
     }
     let sub = args[1].as_str();
     let f: fn(&Value) -> Value = match sub {
+        "c07" => c07::run,
         "c11" => c11::run,
         "c12" => c12::run,
         "fmt" => fmt::run,
